@@ -29,6 +29,12 @@ Import ListNotations.
 Open Scope string_scope.
 """
 
+LONG_TEXT = "a fairly long text, " * 60
+# edge texts (falsy, keyword-like, long, equal to the refusal); "" is not used as the v1 LLM output
+# (generation.py replaces an empty completion by a fallback sentence: LLM post-processing, C17)
+EDGE_USER = ["", " ", "0", "None", "False", LONG_TEXT, D.REFUSAL]
+EDGE_GEN = {"v1": ["0", "None", "False", LONG_TEXT, D.REFUSAL], "v2": ["", " ", "0", "None", "False", LONG_TEXT, D.REFUSAL]}
+
 V1_FAULT_SITES = [("in_rail_0", 0), ("in_rail_1", 0), ("dialog_action", 0), ("ret_rail_0", 0), ("ret_rail_0", 1),
                   ("out_rail_0", 0), ("out_rail_1", 0)]
 V2_FAULT_SITES = [("in_rail_0", 0), ("in_rail_1", 0), ("ret_action", 0), ("gen_action", 0), ("out_rail_0", 0), ("out_rail_1", 0)]
@@ -74,6 +80,23 @@ def gen_cases(rng, tier, version):
         for fs in tr[:600]:
             cases.append({"version": version, "turns": 4, "faults": [list(f) for f in fs],
                           "verdicts": rng.choice(verdict_patterns(4))})
+    # edge texts: every single fault and every one-rejection pattern once more with falsy / colliding
+    # texts (user text == generated text included), cycling through the edge lists
+    eu, eg = EDGE_USER, EDGE_GEN[version]
+    i = 0
+    edge_cases = []
+    for fs in [[]] + singles:
+        for p in (pats[:1 + turns * len(RAIL_SITES)] if tier == "thorough" else [pats[0], pats[1 + (i % (turns * len(RAIL_SITES)))]]):
+            users, gens = [], []
+            for t in range(turns):
+                u = eu[(i + t) % len(eu)]
+                g = eg[(i + 2 * t) % len(eg)] if (i + t) % 3 else (u if (version == "v2" or u.strip() != "") else eg[0])
+                users.append(u)
+                gens.append(g)
+            i += 1
+            edge_cases.append({"version": version, "turns": turns, "faults": [list(f) for f in fs], "verdicts": p,
+                               "texts": {"user": users, "gen": gens}})
+    cases += edge_cases
     if os.environ.get("VERIF_SMALL"):
         rng.shuffle(cases)
         cases = cases[:160]
@@ -111,7 +134,10 @@ def coq_case(case, obs):
         calls = C.coq_list([f"({coq_site(n)}, {C.coq_option(q(t) if t is not None else None)})" for n, t in o["calls"]])
         exp.append(f"(mkEO {res} {calls} {o['llm']})")
     v = "V1" if case["version"] == "v1" else "V2"
-    return f"(mkCC {v} (mkV 2 2 true) {case['turns']} {C.coq_list(ents)} {C.coq_list(exp)})"
+    tx = case.get("texts") or {}
+    users = C.coq_list([q(x) for x in tx.get("user", [])])
+    gens = C.coq_list([q(x) for x in tx.get("gen", [])])
+    return f"(mkCC {v} (mkV 2 2 true) {case['turns']} {C.coq_list(ents)} {users} {gens} {C.coq_list(exp)})"
 
 
 # ---------------------------------------------------------------------------------------
@@ -185,15 +211,25 @@ def expected_turn(case, t):
     return calls, r, rr, r == "refusal"
 
 
-def reply_class(version, o, t):
+def reply_classes(case, o, t):
+    """All classes the reply text belongs to (texts may coincide, e.g. generated text == refusal)."""
     r = o["reply"]
+    out = set()
     if r == D.REFUSAL:
-        return "refusal"
+        out.add("refusal")
     if r == INTERNAL_ERROR:
-        return "internal"
-    if r is not None and D.LLM_TEXT in r:
-        return "llm"
-    return "other:" + repr(r)
+        out.add("internal")
+    if r == D.case_gen_text(case, t):
+        out.add("llm")
+    return out
+
+
+def reply_class(case, o, t):
+    cs = reply_classes(case, o, t)
+    for c in ("refusal", "internal", "llm"):
+        if c in cs:
+            return c
+    return "other:" + repr(o["reply"])[:60]
 
 
 def oracle(case, obs):
@@ -206,23 +242,25 @@ def oracle(case, obs):
             break
         want_calls, want_cls, rail_raised, rail_blocked = expected_turn(case, t)
         got_calls = [c[0] for c in o["calls"]]
-        cls = reply_class(version, o, t)
+        classes = reply_classes(case, o, t)
+        cls = reply_class(case, o, t)
+        llm_only = classes == {"llm"}      # the generated text and nothing that is also a refusal / error message
         earlier_fault = any(f[0] < t for f in case["faults"]) or any(int(k.split(":")[0]) < t for k in case.get("verdicts", {}))
         # fail closed
         called_rails = [c for c in got_calls if c.startswith(("in_rail", "out_rail"))]
         bad_verdict = [c for c in called_rails if decide(case, t, c, 0) in ("R", "X")]
         # (the refusal text itself being re-checked by v2 output rails does not count)
-        if cls == "llm" and bad_verdict:
+        if llm_only and bad_verdict:
             sig = (f"{version}-hidden-turn-stale-context:verdict-ignored" if version == "v1"
                    else f"{version}-rail-verdict-ignored")
             bad.append((sig, f"turn {t}: rail action(s) {bad_verdict} rejected or raised but the reply is the LLM text"))
             continue
-        if version == "v2" and cls == "llm" and want_cls == "llm" and "gen_action" in got_calls and \
+        if version == "v2" and "llm" in classes and want_cls == "llm" and "gen_action" in got_calls and \
                 not any(c.startswith("out_rail") for c in got_calls):
             bad.append(("v2-output-rails-disabled-after-blocked-bot-message",
                         f"turn {t}: the LLM text was returned without calling any output rail (calls {got_calls})"))
             continue
-        if version == "v2" and o["reply"] == "" and got_calls == []:
+        if version == "v2" and o["reply"] == "" and got_calls == [] and want_calls:
             bad.append(("v2-dialog-action-failure-kills-conversation",
                         f"turn {t}: empty reply and no rail was called (a dialog action raised in an earlier turn)"))
             continue
@@ -230,17 +268,17 @@ def oracle(case, obs):
             # a failing dialog action guards no text: generate must return normally without the LLM text
             # (a refusal, the internal-error message, or no utterance at all); the output rails may be consulted
             rest = got_calls[len(want_calls):]
-            if (cls in ("refusal", "internal") or o["reply"] == "") and got_calls[:len(want_calls)] == want_calls \
+            if (classes & {"refusal", "internal"} or o["reply"] == "") and got_calls[:len(want_calls)] == want_calls \
                     and rest == [f"out_rail_{k}" for k in range(len(rest))]:
                 continue
             bad.append((f"turn-differs-from-fresh-conversation:{version}",
                         f"turn {t} (dialog action raised): calls {got_calls} reply {o['reply']!r}"))
             continue
-        ok_cls = cls == want_cls
+        ok_cls = want_cls in classes
         if not ok_cls or got_calls != want_calls:
-            if version == "v1" and cls == "refusal" and want_cls == "llm" and earlier_fault:
+            if version == "v1" and "refusal" in classes and want_cls == "llm" and earlier_fault:
                 sig = "v1-hidden-turn-stale-context:spurious-refusal"
-            elif version == "v2" and want_cls != "llm" and cls == "refusal" and got_calls != want_calls and \
+            elif version == "v2" and want_cls != "llm" and "refusal" in classes and got_calls != want_calls and \
                     not any(c.startswith("out_rail") for c in got_calls) and any(c.startswith("out_rail") for c in want_calls):
                 sig = "v2-output-rails-disabled-after-blocked-bot-message"
             else:
@@ -330,8 +368,10 @@ def run(tier, seed, replay=None):
         dist[{0: "no_fault", 1: "single_fault", 2: "pair"}.get(len(case["faults"]), "triple")] += 1
         if case.get("verdicts"):
             dist["with_rejects"] += 1
+        if case.get("texts"):
+            dist["edge_texts"] = dist.get("edge_texts", 0) + 1
         for o in obs:
-            k = reply_class(case["version"], o, o["turn"]) if not o["exc"] else "raises"
+            k = reply_class(case, o, o["turn"]) if not o["exc"] else "raises"
             k = k if not k.startswith("other") else "other"
             dist["reply_classes"][k] = dist["reply_classes"].get(k, 0) + 1
         for sig, msg in oracle(case, obs):
